@@ -25,6 +25,9 @@ func Compile(root *Module) error {
 type compiler struct {
 	root *Module
 	pool map[HasDefinitions]struct{}
+
+	// imported modules already visited, imports may be circular
+	imported map[*Module]struct{}
 }
 
 func (c *compiler) module(y *Module) error {
@@ -55,6 +58,13 @@ func (c *compiler) module(y *Module) error {
 }
 
 func (c *compiler) compileImport(m *Module) error {
+	if _, visited := c.imported[m]; visited {
+		return nil
+	}
+	if c.imported == nil {
+		c.imported = make(map[*Module]struct{})
+	}
+	c.imported[m] = struct{}{}
 	for _, i := range m.identities {
 		if err := c.compile(i); err != nil {
 			return err
